@@ -19,6 +19,7 @@ pub mod c14;
 pub mod c15;
 pub mod c16;
 pub mod c17;
+pub mod c18;
 pub mod c19;
 pub mod c20;
 pub mod lines;
@@ -78,6 +79,7 @@ pub fn dispatch(run: &mut Run) -> bool {
         "C15" => c15::run(run),
         "C16" => c16::run(run),
         "C17" => c17::run(run),
+        "C18" => c18::run(run),
         "C19" => c19::run(run),
         "C20" => c20::run(run),
         _ => return false,
